@@ -48,6 +48,7 @@ def verify_function(repo, registry, qualname, only_variant=None):
             interp = make_interp(repo, ctx, registry)
             interp.current_contract = c
             interp.current_qualname = qualname
+            ctx.function = qualname
             env = Env(m, func=fnode)
             # symbolic inputs
             bound = {}
@@ -87,6 +88,16 @@ def verify_function(repo, registry, qualname, only_variant=None):
                 ctx.assume(t)
             if not ctx.feasible():
                 raise PathAbort()
+            interp.lemma_mode = "use"
+            lemma_terms = {}
+            for cl in c.lemmas:
+                lemma_terms[cl.name] = interp.as_bool_term(c.eval_spec(interp, cl.expr, spec_env))
+
+            def using(cl):
+                names = ast.literal_eval(cl.kw["using"]) if "using" in cl.kw else []
+                for n in names:
+                    ctx.assumed.add(f"lemma:{short}/{n} (proved separately)")
+                return [(lemma_terms[n], None) for n in names]
             kind, val, exc = "return", NONE, None
             try:
                 val = interp.run_body(fnode, env)
@@ -114,16 +125,17 @@ def verify_function(repo, registry, qualname, only_variant=None):
                     ctx.oblige(f"{pre}/raises[{cl.name}]/must-raise", z3.Not(t), kind="must-raise", **meta)
             spec_env.vars["result"] = val
             pc_before_post = list(ctx.pc)
-            if c.returns_expr is not None:
+            if c.returns_expr is not None and "assume_only" not in c.returns_expr.kw:
                 exp = c.eval_spec(interp, c.returns_expr.expr, spec_env)
-                ctx.oblige(f"{pre}/{c.returns_expr.name}", interp.veq(val, exp), kind="post", **meta)
+                ctx.oblige(f"{pre}/{c.returns_expr.name}", interp.veq(val, exp), kind="post", assume_after=False,
+                           extra_hyps=using(c.returns_expr), **meta)
             for cl in c.ensures:
                 t = interp.as_bool_term(c.eval_spec(interp, cl.expr, spec_env))
-                ctx.oblige(f"{pre}/{cl.name}", t, kind="post", **meta)
+                ctx.oblige(f"{pre}/{cl.name}", t, kind="post", assume_after=False, extra_hyps=using(cl), **meta)
             for cl in c.canaries:
                 t = interp.as_bool_term(c.eval_spec(interp, cl.expr, spec_env))
                 # a canary is a wrong post-condition: recorded separately, expected NOT to be provable
-                ctx.obligs.append(Obligation(f"{pre}/canary[{cl.name}]", pc_before_post, t,
+                ctx.obligs.append(Obligation(f"{pre}/canary[{cl.name}]", pc_before_post + using(cl), t,
                                              dict(kind="canary", inputs=dict(ctx.inputs), **meta)))
             rep.calls.update(q for q, _ in interp.calls_made)
             return ("return", None, None)
@@ -163,7 +175,15 @@ def lemma_obligations(repo, registry, qualname):
                 env = c.spec_env(interp, bound)
                 for r in c.requires:
                     ctx.assume(interp.as_bool_term(c.eval_spec(interp, r.expr, env)))
+                # earlier lemmas of the same contract may be used by later ones
+                interp.lemma_mode = "use"
+                for prev in c.lemmas:
+                    if prev is cl:
+                        break
+                    ctx.assume(interp.as_bool_term(c.eval_spec(interp, prev.expr, env)), f"lemma:{short}/{prev.name} (proved separately)")
+                interp.lemma_mode = "prove"
                 t = interp.as_bool_term(c.eval_spec(interp, cl.expr, env))
+                interp.lemma_mode = "use"
                 ctx.oblige(f"{short}{vtag}/lemma[{cl.name}]", t, kind="lemma", function=qualname, variant=vtag)
                 out.extend(ctx.obligs)
             except PathAbort:
